@@ -203,6 +203,11 @@ theorem natDigits_two (n : Nat) (h1 : 10 ≤ n) (h2 : n < 100) : natDigits n = [
 theorem intLike_renderInt (n : Int) (h : n.natAbs < 10 ^ maxStrDigits) : intLike (renderInt n) = true := by
   simp [intLike, pyIntOfString_renderInt_of_lt n h]
 
+theorem r35 : renderInt 35 = [51, 53] := natDigits_two 35 (by omega) (by omega)
+theorem r1 : renderInt 1 = [49] := natDigits_one 1 (by omega)
+theorem il35 : intLike [51, 53] = true := r35 ▸ intLike_renderInt 35 (small_lt_limit _ (by decide))
+theorem il1 : intLike [49] = true := r1 ▸ intLike_renderInt 1 (small_lt_limit _ (by decide))
+
 /-! ### the characters of an accepted string -/
 
 /-- the ASCII characters `PyLong_FromString` can consume -/
